@@ -85,8 +85,10 @@ func storeFor(svcs []svc, isolate bool, friends ...string) config.Store {
 }
 
 type scene struct {
-	ms *mesh.Mesh
-	me *world.Node
+	// wrap, when set, rewrites the inner packet of the next inbound case (extension headers in front of the transport header)
+	wrap func(pk []byte) []byte
+	ms   *mesh.Mesh
+	me   *world.Node
 }
 
 func newScene(svcs []svc, isolate bool, friends string) (*scene, error) {
@@ -164,6 +166,9 @@ func (s *scene) inbound(a act) (toTun, panicked bool) {
 	}
 	sp := 40000
 	pk := packet(innerSrc, innerDst, a.Proto, sp, a.Dport)
+	if s.wrap != nil {
+		pk = s.wrap(pk)
+	}
 	sealer := sender
 	if a.Variant == "sealed-by-other" {
 		other := "o2"
@@ -241,6 +246,8 @@ func cfgKey(svcs []svc, isolate bool, friends string) string {
 }
 
 func main() { vf.Main("C06", "model_checking", run) }
+
+var nExt int
 
 func run(c *vf.Ctx) {
 	c.Rule("M: TLC enumerates 265 configurations (none, every single service over 6 schemes x 4 ports x 5 access rules, 144 two-service combinations) x genuine packets (4 senders x 4 protocols x 5 ports), not-what-they-claim variants, established flows with and without isolation, outbound packets (source, 5 destination kinds, isolation): 18k cases with the allowed verdict. R: every configuration the real parser accepts installed in a real router; quick executes a seeded sample of the packet cases per configuration, thorough all; CheckInboundTrafficPolicy is also swept over protocols 0..255 x ports {0,1,p-1,p,p+1,65535}. T: observed verdicts judged by TLC. distinct = distinct (configuration, packet case)")
@@ -370,6 +377,48 @@ func run(c *vf.Ctx) {
 				c.Eval(1)
 				events = append(events, map[string]any{"ev": "in", "svcs": a.Svcs, "isolate": a.Isolate, "who": a.Who, "proto": a.Proto, "dport": a.Dport,
 					"variant": a.Variant, "flow": a.Flow, "friends": a.Friends, "totun": toTun, "panic": panicked})
+				if a.Variant == "ok" && !a.Flow && (a.Proto == 6 || a.Proto == 17) && (c.Thorough() || nExt%3 == 0) {
+					// the same packet with IPv6 extension headers in front of its transport header: whatever the router
+					// makes of them, the packet may only reach the interface if a service admits ITS protocol and ITS port
+					for _, hl := range []int{0, 1, 254, 255} {
+						decoy := 80
+						for _, sv := range a.Svcs {
+							if sv.Port != 0 && sv.Port != a.Dport {
+								decoy = sv.Port
+							}
+						}
+						if decoy == a.Dport {
+							decoy = 443
+						}
+						nh := []int{0, 43, 60}[(nExt+hl)%3]
+						depth := 1 + (nExt+hl)%2
+						sc.wrap = func(pk []byte) []byte {
+							out := append([]byte(nil), pk[:40]...)
+							next := int(pk[6])
+							body := pk[40:]
+							var chain []byte
+							for d := 0; d < depth; d++ {
+								eh := make([]byte, (hl+1)*8)
+								eh[0] = byte(next) // the innermost header written first names the transport protocol
+								eh[1] = byte(hl)
+								eh[2], eh[3] = byte(decoy>>8), byte(decoy) // option bytes that look like a port of another service
+								chain = append(eh, chain...)
+								next = nh
+							}
+							out[6] = byte(nh)
+							out = append(out, chain...)
+							out = append(out, body...)
+							out[4], out[5] = byte((len(out)-40)>>8), byte(len(out)-40)
+							return out
+						}
+						tt, pp := sc.inbound(a)
+						sc.wrap = nil
+						c.Eval(1)
+						events = append(events, map[string]any{"ev": "in", "svcs": a.Svcs, "isolate": a.Isolate, "who": a.Who, "proto": a.Proto, "dport": a.Dport,
+							"variant": "exthdr", "flow": false, "friends": a.Friends, "totun": tt, "panic": pp, "exthdr": fmt.Sprintf("next header %d x%d, hdr ext len %d, option bytes spell port %d", nh, depth, hl, decoy)})
+					}
+				}
+				nExt++
 			case "out":
 				toMesh := fresh().outbound(a)
 				c.Eval(1)
